@@ -62,6 +62,18 @@ def bytearray_(*a):
     return SymByteArray(*a)
 
 
+def isinstance_(obj, cls):
+    """a byte-string proxy answers as `bytes` (and a str proxy as `str`), so the code takes the branch it
+    takes for the values the proxy stands for"""
+    if isinstance(obj, SymBytes):
+        kind = str if obj._kind == "str" else bytes
+        if cls is kind or (isinstance(cls, tuple) and kind in cls):
+            return True
+        if cls in (bytes, str) or (isinstance(cls, tuple) and (bytes in cls or str in cls)):
+            return False
+    return _b.isinstance(obj, cls)
+
+
 def selftest():
     import random
     rnd = random.Random(3)
